@@ -261,7 +261,7 @@ def _work(args):
                     max_res, oplen = 40, 40
                 residues = random_file(rng, max_res)
                 vel = rng.random() < 0.5
-                title = rng.choice(['Random system', 'x', 'Title with, punctuation t= 1.0'])
+                title = rng.choice(['Random system', 'x', 'Title with, punctuation t= 1.0', '  padded title \t', 'trailing blanks   '])
                 box = rng.choice([(3.0, 4.0, 5.0), (7.5, 7.5, 7.5, 0.0, 0.0, 1.25, 0.0, -2.5, 0.5)])
                 ops = random_ops(rng, len(residues), rng.randint(1, oplen))
             recs = build_file(path, residues, vel, title, box, crlf=(tid % 5 == 4))      # every fifth file has DOS line ends
